@@ -18,6 +18,10 @@ package producer
 //	r<k>  same, but with an RST (tcp only)
 //	d<k>  the sink closes the connection and stops listening
 //	u<k>  the sink listens again on the same address
+//	s<k>  (unix, tcp) message k is made large (more than the socket buffers hold); the sink stops
+//	      reading just before it is handed over, waits until the producer is blocked in the MIDDLE
+//	      of writing it, then closes (unix) / resets (tcp) the connection and reads normally again:
+//	      the failed write has put part of the line on the wire
 //
 // impl line: "ec=<MQErrorCount> recv=<runs>" where runs lists, per sink connection in accept
 // order, the maximal runs of consecutive message indices received, e.g. "c0[0-2] c1[4-9]";
@@ -43,6 +47,7 @@ import (
 	"strconv"
 	"strings"
 	"sync"
+	"sync/atomic"
 	"testing"
 	"time"
 )
@@ -63,6 +68,7 @@ type verifSink struct {
 	wg    sync.WaitGroup
 	mu    sync.Mutex
 	tries int
+	stall int32 // != 0: the readers of accepted stream connections do not read
 }
 
 func (s *verifSink) listenOnce() error {
@@ -144,8 +150,16 @@ func (s *verifSink) listen() error {
 			s.wg.Add(1)
 			go func() {
 				defer s.wg.Done()
+				if tc, ok := c.(*net.TCPConn); ok {
+					// a fixed small receive buffer: a stalled sink then blocks the producer after a few
+					// MB (its own send buffer) instead of after tcp_rmem[2]
+					tc.SetReadBuffer(1 << 16)
+				}
 				buf := make([]byte, 1<<16)
 				for {
+					for atomic.LoadInt32(&s.stall) != 0 {
+						time.Sleep(100 * time.Microsecond)
+					}
 					n, err := c.Read(buf)
 					if n > 0 {
 						s.rec.mu.Lock()
@@ -248,14 +262,28 @@ func (l *verifLockedBuf) count(sub string) int {
 // verifMessages derives the handed-over messages from the seed: every message starts with its
 // index (so all are distinct), contains no newline, and is one of: plain JSON-like text, text with
 // printf verbs and stray '%', multi-kilobyte text, arbitrary binary octets.
-func verifMessages(seed int64, n int, maxLen int) [][]byte {
+func verifMessages(seed int64, n int, maxLen int, big map[int]int) [][]byte {
 	r := rand.New(rand.NewSource(seed))
 	verbs := []string{"%d", "%s", "%v", "%%", "%!x", "%5.2f", "%", "%+v", "%[2]d", "%*d", "100%", "%n", "%q"}
 	msgs := make([][]byte, n)
 	for k := 0; k < n; k++ {
 		var b bytes.Buffer
 		fmt.Fprintf(&b, `{"i":%d,"AgentID":"10.0.%d.%d","d":"`, k, r.Intn(256), r.Intn(256))
-		switch r.Intn(5) {
+		kind := r.Intn(5)
+		if big[k] > 0 {
+			kind = 5
+		}
+		switch kind {
+		case 5:
+			// large: printable text sprinkled with printf verbs, built from a random block
+			blk := make([]byte, 4096)
+			for j := range blk {
+				blk[j] = byte(32 + r.Intn(95))
+			}
+			for b.Len() < big[k] {
+				b.Write(blk[:1+r.Intn(len(blk))])
+				b.WriteString(verbs[r.Intn(len(verbs))])
+			}
 		case 0:
 			for j, m := 0, r.Intn(40); j < m; j++ {
 				b.WriteByte(byte(32 + r.Intn(95)))
@@ -301,7 +329,7 @@ func verifParseEvents(s string) ([]verifEvent, error) {
 	}
 	var evs []verifEvent
 	for _, f := range strings.Split(s, ",") {
-		if len(f) < 2 || !strings.ContainsRune("crdu", rune(f[0])) {
+		if len(f) < 2 || !strings.ContainsRune("crdus", rune(f[0])) {
 			return nil, fmt.Errorf("bad event %q", f)
 		}
 		k, err := strconv.Atoi(f[1:])
@@ -356,7 +384,19 @@ func verifRawSocketCase(dir string, caseNo int, line string) (string, string) {
 	if proto == "udp" {
 		maxLen = 8000
 	}
-	msgs := verifMessages(seed, n, maxLen)
+	big := map[int]int{}
+	for _, e := range events {
+		if e.kind == 's' && e.at < n {
+			if proto == "udp" {
+				return "bad-op", "fail:s events need a stream socket"
+			}
+			big[e.at] = 1500000 // unix: socket buffers hold ~200 kB
+			if proto == "tcp" {
+				big[e.at] = 9000000 // tcp: tcp_wmem[2] (4 MB) + the sink's 64 kB receive buffer
+			}
+		}
+	}
+	msgs := verifMessages(seed, n, maxLen, big)
 
 	sink := &verifSink{proto: proto, rec: &verifChunkLog{}}
 	switch proto {
@@ -443,12 +483,17 @@ func verifRawSocketCase(dir string, caseNo int, line string) (string, string) {
 	mlog := make([]msgLog, n)
 	lastFault := -1
 	for k := 0; k < n; k++ {
+		stallHere := false
 		for _, e := range events {
 			if e.at != k {
 				continue
 			}
 			lastFault = k
 			switch e.kind {
+			case 's':
+				stallHere = true
+				atomic.StoreInt32(&sink.stall, 1)
+				time.Sleep(300 * time.Microsecond) // a reader already inside Read takes one more chunk at most
 			case 'c':
 				sink.closeConns(false)
 			case 'r':
@@ -474,6 +519,31 @@ func verifRawSocketCase(dir string, caseNo int, line string) (string, string) {
 		case ch <- m:
 		case <-time.After(10 * time.Second):
 			return "fuel", fmt.Sprintf("fail:hang producer did not take message %d within 10s", k)
+		}
+		if stallHere {
+			// the producer blocks in the middle of the write (the sink does not read, the socket
+			// buffers are full): its goroutine sits in "IO wait" and nothing moves any more
+			blockedSince, lastGot, blocked := time.Time{}, -1, false
+			for deadline := time.Now().Add(3 * time.Second); time.Now().Before(deadline); time.Sleep(200 * time.Microsecond) {
+				st := verifInputMsgState()
+				if strings.Contains(st, "chan receive") {
+					break // no write of this message ever blocked (given up on a dead connection)
+				}
+				if got := sink.received(); strings.Contains(st, "IO wait") && got == lastGot {
+					if blockedSince.IsZero() {
+						blockedSince = time.Now()
+					} else if time.Since(blockedSince) > 15*time.Millisecond {
+						blocked = true
+						break
+					}
+				} else {
+					blockedSince, lastGot = time.Time{}, got
+				}
+			}
+			if blocked {
+				sink.closeConns(proto == "tcp") // kills the write half-way
+			}
+			atomic.StoreInt32(&sink.stall, 0)
 		}
 		if perMessage {
 			awaitProcessed(got0, gu0, len(msgs[k])+1)
@@ -657,18 +727,23 @@ func verifRawSocketCase(dir string, caseNo int, line string) (string, string) {
 // verifInputMsgIdle reports whether the goroutine running RawSocket.inputMsg is blocked receiving
 // from its channel, i.e. it has finished with every message handed over so far
 func verifInputMsgIdle() bool {
+	return strings.Contains(verifInputMsgState(), "[chan receive")
+}
+
+// verifInputMsgState returns the header line ("goroutine N [state]:") of the goroutine running
+// RawSocket.inputMsg, "" when there is none
+func verifInputMsgState() string {
 	buf := make([]byte, 1<<18)
 	buf = buf[:runtime.Stack(buf, true)]
 	for _, blk := range strings.Split(string(buf), "\n\n") {
 		if strings.Contains(blk, "(*RawSocket).inputMsg") {
-			head := blk
 			if i := strings.IndexByte(blk, '\n'); i >= 0 {
-				head = blk[:i]
+				return blk[:i]
 			}
-			return strings.Contains(head, "[chan receive")
+			return blk
 		}
 	}
-	return false
+	return ""
 }
 
 func settleQuiet(s *verifSink, quiet time.Duration) {
